@@ -184,19 +184,23 @@ func (rd *Round) Case33() gen.Case {
 	}
 	pverr, fcerr := rd.ErrClass(rd.Preview), rd.ErrClass(rd.Force)
 
-	modelled := rd.BeforeOK && rd.AfterOK && (rd.Kind == "remove" || rd.DiscoverErr == "") && goFail == ""
+	modelled := rd.BeforeOK && rd.AfterOK && (rd.Kind == "remove" || rd.DiscoverErr == "") && (goFail == "" || key == "preview-not-pure" || key == "force-effects")
 	if modelled {
 		cwd := Hx(rd.World.Base)
 		before := rd.ModelShards(rd.Before)
 		if rd.Kind == "sync" {
-			c.In = fmt.Sprintf("sync %s %s %s", cwd, EncRepos(rd.ModelRepos()), EncShards(before))
+			c.In = fmt.Sprintf("sync %s %s %s %s", cwd, EncRepos(rd.ModelRepos()), EncShards(before), EncStrs(rd.SnapBefore.Others()))
 		} else {
-			c.In = fmt.Sprintf("remove %s %s %s", cwd, EncStrs(rd.Selectors), EncShards(before))
+			c.In = fmt.Sprintf("remove %s %s %s %s", cwd, EncStrs(rd.Selectors), EncShards(before), EncStrs(rd.SnapBefore.Others()))
 		}
-		c.Impl = fmt.Sprintf("pv=%s pverr=%s pvpost=%s fc=%s fcerr=%s post=%s",
+		c.Impl = fmt.Sprintf("pv=%s pverr=%s pvpost=%s fc=%s fcerr=%s post=%s pvoth=%s fcoth=%s",
 			EncEvents(rd.Preview.Events), pverr, EncShards(rd.ModelShards(rd.AfterPv)),
-			EncEvents(rd.Force.Events), fcerr, EncShards(rd.ModelShards(rd.After)))
+			EncEvents(rd.Force.Events), fcerr, EncShards(rd.ModelShards(rd.After)),
+			EncStrs(rd.SnapPreview.Others()), EncStrs(rd.SnapAfter.Others()))
 		c.Class = rd.Kind + ":" + kinds(rd.Preview.Events) + ":" + pverr
+		if len(rd.Bystand) > 0 {
+			c.Class += "+bystanders" // non-shard files (temp leftovers, lock, notes, sub-directory) lie in the index directory
+		}
 		if rd.Kind == "sync" {
 			// a wanted repository whose own shard path is announced for removal: "moved, same name"
 			for _, d := range rd.Desired {
@@ -212,6 +216,9 @@ func (rd *Round) Case33() gen.Case {
 	} else {
 		// discovery fails / the index directory is refused: both runs must fail alike and change nothing
 		c.Class = rd.Kind + ":refused"
+		if len(rd.Bystand) > 0 {
+			c.Class += "+bystanders"
+		}
 		if goFail == "" {
 			if pverr != fcerr {
 				fail("preview-error-differs", fmt.Sprintf("preview ended %s, forced run ended %s", pverr, fcerr))
